@@ -18,12 +18,16 @@ FINDING_REGROUP = 'F16'
 # real code
 # ---------------------------------------------------------------------------
 
-def real_order(n, adj):
-    """Run the real DependencyGraph; returns ('ok', leaves, order) or ('error', type)."""
+def real_order(n, adj, anchors=()):
+    """Run the real DependencyGraph; returns ('ok', leaves, order) or ('error', type).  Nodes in `anchors` carry the
+    state that EvolutionGraph gives its `__first__` / `__last__` nodes."""
     from django_evolution.utils.graph import DependencyGraph
     g = DependencyGraph()
     for i in range(n):
-        g.add_node('n%d' % i)
+        if i in anchors:
+            g.add_node('n%d' % i, {'anchor': True, 'type': 'anchor'})
+        else:
+            g.add_node('n%d' % i)
     for x, ds in enumerate(adj):
         for d in ds:
             g.add_dependency('n%d' % x, 'n%d' % d)
@@ -288,6 +292,17 @@ def run(ctx):
                 ok = (not acyc)   # an implementation that reports cycles is outside the model's `validate=false`
                 ctx.variant['cycle_error_raised'] = True
             ctx.corr_case('get_ordered', ok, case={'n': n, 'adj': adj}, model=m, impl=real)
+        # what a node carries (the anchor mark of the `__first__` / `__last__` nodes) has no say in the order or in
+        # whether a cycle is reported: small graphs are run again with every second node, and with every node, marked
+        if n <= 4:
+            for anchors in (set(range(0, n, 2)), set(range(n))):
+                real_a = real_order(n, adj, anchors)
+                if real_a != real:
+                    ctx.fail(None, 'the answer for a graph depends on which nodes are marked as anchors: %s, unmarked %s'
+                             % (('no error, order %s' % (real_a[2],)) if real_a[0] == 'ok' else real_a[1],
+                                ('order %s' % (real[2],)) if real[0] == 'ok' else real[1]),
+                             {'kind': 'graph', 'n': n, 'adj': adj, 'anchors': sorted(anchors), 'observed': list(real_a)})
+                    break
         # property oracle on the real code
         if acyc:
             if real[0] != 'ok' or not order_ok(n, adj, real[2]):
@@ -354,7 +369,7 @@ def replay(ctx, obj):
     dj.setup()
     r = obj.get('replay', obj)
     if r.get('kind') == 'graph':
-        real = real_order(r['n'], r['adj'])
+        real = real_order(r['n'], r['adj'], set(r.get('anchors') or ()))
         print('graph n=%d adj=%r -> %r (acyclic=%s)' % (r['n'], r['adj'], real, is_acyclic(r['n'], r['adj'])))
         bad = (real[0] == 'ok' and not order_ok(r['n'], r['adj'], real[2]))
         return 1 if bad else 0
